@@ -6,11 +6,11 @@ import random
 
 from pyvc.bounded import Driver
 
-SHEETS = ['Sheet1', 'Data', 'My Sheet', "It's"]
+SHEETS = ['Sheet1', 'Data', 'My Sheet', "It's", '2023', '1st Quarter']           # (titles starting with a digit need quotes as well)
 
 
 def q(s):
-    return s if s.isalnum() else "'" + s.replace("'", "''") + "'"
+    return s if (s.isalnum() and not s[0].isdigit()) else "'" + s.replace("'", "''") + "'"
 
 
 def table():
